@@ -446,8 +446,26 @@ def run_check(pid, tier, seed, t0):
     jobs = [(pid, seed, s, ('thorough' if (moved and s % 2) else tier), driver_ok) for s in range(nseeds)]
     if nseeds > 1:
         import multiprocessing
+        results = []
         with multiprocessing.Pool(min(nseeds, max(2, (os.cpu_count() or 4) - 2), 12)) as pool:
-            results = pool.map(_seed_worker, jobs, chunksize=1)
+            # seed 0 (it carries the corpus) is always waited for; once any seed has found a violation of the
+            # property the remaining ones are not needed for the verdict
+            open_ids0 = set(e['id'] for e in open_known)
+            pending = [pool.apply_async(_seed_worker, (j,)) for j in jobs]
+            done = [False] * len(pending)
+            hit = False
+            while not all(done):
+                for i, a in enumerate(pending):
+                    if not done[i] and a.ready():
+                        r = a.get()
+                        done[i] = True
+                        results.append(r)
+                        if any(not (kf and kf in open_ids0) for (_c, _g, _m, _o, kf) in r['oracle_fail']):
+                            hit = True
+                if hit and done[0]:
+                    break
+                time.sleep(0.05)
+            pool.terminate()
     else:
         results = [_seed_worker(j) for j in jobs]
     open_ids = set(e['id'] for e in open_known)
